@@ -1,3 +1,4 @@
+import HotstuffModel.Generated.Guards
 /-!
 # The peer-facing side of the mempool (C11, C13)
 
@@ -145,9 +146,10 @@ and every emitted retry is one the code can emit). -/
 def pick (cfg : Cfg) (peers : List Nat) : List Nat :=
   if legalPick cfg peers then peers else (others cfg).take cfg.retryNodes
 
-/-- The digests the timer branch re-requests: `timestamp + sync_retry_delay < now`. -/
+/-- The digests the timer branch re-requests: `timestamp + sync_retry_delay < now`
+(`Gen.mpRetryDue`, regenerated from the source on every run). -/
 def due (cfg : Cfg) (p : List PEntry) (now : Nat) : List Nat :=
-  (p.filter (fun e => e.ts + cfg.retryDelay < now)).map (·.digest)
+  (p.filter (fun e => decide (Gen.mpRetryDue e.ts cfg.retryDelay now))).map (·.digest)
 
 /-- The helper's replies to one request from a known origin. -/
 def replies (st : List (Nat × Nat)) (origin : Nat) : List Nat → List Out
